@@ -1,11 +1,11 @@
 #!/usr/bin/env python3
-"""seed_round.py <first-id-number>: prepare scratch worktrees /tmp/wt/mNNN (one per property), property
+"""seed_round.py <first-id-number> [<round>]: prepare scratch worktrees /tmp/wt/mNNN (one per property), property
 text files and the sub-agent prompts of a round of seeded changes (prompts are printed to
 /tmp/wt/prompt_mNNN.txt). Nothing from /verif except the property text reaches the sub-agent."""
 import json, os, subprocess, sys
-first = int(sys.argv[1])
-tmpl = open('/verif/seeded/PROMPT-round7.txt').read()
-angles = json.load(open('/verif/seeded/angles-round7.json'))
+first = int(sys.argv[1]); rnd = sys.argv[2] if len(sys.argv) > 2 else '7'
+tmpl = open('/verif/seeded/PROMPT-round%s.txt' % rnd).read()
+angles = json.load(open('/verif/seeded/angles-round%s.json' % rnd))
 props = [json.loads(l) for l in open('/verif/properties.jsonl')]
 os.makedirs('/tmp/wt/out', exist_ok=True)
 for i, p in enumerate(props):
